@@ -3,7 +3,7 @@ import vlib
 
 def run(tier, seed):
     c = vlib.GoCheck("C24", "model_checking", tier, seed)
-    n = 4 if tier == "quick" else 6
+    n = 4 if tier == "quick" else 5
     c.assumptions = [
         "expression text: every string of 0..%d bytes over the alphabet {space ( ) ! & | a b c} after the '#wa:build ' prefix (VfH_expr); every string of 0..%d arbitrary bytes (VfH_anybytes)" % (n, 2 if tier == "quick" else 3),
         "token-level harness: every sequence of up to %d tokens over {a b ( ) ! && ||} (enumerated, concrete execution), tag assignment symbolic" % 7,
